@@ -199,14 +199,14 @@ def setup(ctx):
     ctx.oracle("bar", o_bar)
     ctx.oracle("bar-copy-mut", o_bar_copy_mut)
 
-    def kf_d42(f):
+    def kf_d44(f):
         # the bar's content at the time of the copy does not pair its notes per (channel, pitch) — what set_channel leaves behind when it moves
         # overlapping notes of one pitch from two channels onto one — and bar and copy differ in note events of exactly those keys
         return f["oracle"] == "bar-copy-mut" and f["clause"] == "copy-mut" and any(m[0] == "set_channel" for m in f["input"].get("muts", [])) \
             and BM.is_merge_outcome(f)
-    ctx.kf_predicates["D44"] = kf_d42
+    ctx.kf_predicates["D44"] = kf_d44
 
-    def kf_d43(f):
+    def kf_d45(f):
         # the history holds a transposition and the bar's own content read BEFORE the copy no longer lasts the bar's capacity (the wrap branch of
         # Sequence.transpose re-quantised the note lengths through the absolute view): longer — copy() raised BarException; shorter — the copy
         # holds the same events and is padded back to the capacity
@@ -216,7 +216,7 @@ def setup(ctx):
                 and any(m[0] in ("transpose", "bar_transpose") for m in f["input"].get("muts", []))):
             return False
         return BM.is_requantised_outcome(d, 96 * n // dd)
-    ctx.kf_predicates["D45"] = kf_d43
+    ctx.kf_predicates["D45"] = kf_d45
 
     def kf_d28(f):
         # the signature's bar length is not a whole number of ticks at PPQN 24 (the denominator does not divide 96 * numerator)
@@ -242,11 +242,11 @@ def setup(ctx):
 D37B_WITNESS = {"rel": [G.pm(ON, 3, None, note=60, vel=64), G.pm(WAIT, 3, 24), G.pm(OFF, 3, None, note=60)], "n": 4, "d": 4, "key": None, "dch": 3,
                 "muts": [["set_channel", 0]]}
 # D44: two channels hold overlapping notes of one pitch; set_channel merges them
-D42_EXAMPLE = {"rel": [G.pm(ON, 0, None, note=60, vel=64), G.pm(WAIT, 0, 12), G.pm(ON, 1, None, note=60, vel=64), G.pm(WAIT, 1, 24),
+D44_EXAMPLE = {"rel": [G.pm(ON, 0, None, note=60, vel=64), G.pm(WAIT, 0, 12), G.pm(ON, 1, None, note=60, vel=64), G.pm(WAIT, 1, 24),
                        G.pm(OFF, 0, None, note=60), G.pm(WAIT, 0, 24), G.pm(OFF, 1, None, note=60)], "n": 4, "d": 4, "key": None, "dch": 3,
                "muts": [["set_channel", 0]]}
 # D45: a short note at the end of a 7/16 bar; the wrap branch of transpose re-quantises it past the bar line
-D43_EXAMPLE = {"rel": [G.pm(WAIT, 0, 40), G.pm(ON, 0, None, note=1, vel=64), G.pm(WAIT, 0, 2), G.pm(OFF, 0, None, note=1)], "n": 7, "d": 16, "key": 3,
+D45_EXAMPLE = {"rel": [G.pm(WAIT, 0, 40), G.pm(ON, 0, None, note=1, vel=64), G.pm(WAIT, 0, 2), G.pm(OFF, 0, None, note=1)], "n": 7, "d": 16, "key": 3,
                "dch": 15, "muts": [["transpose", -12]]}
 D37_EXAMPLE = {"rel": [G.pm(ON, 3, None, note=60, vel=64), G.pm(WAIT, 3, 24), G.pm(OFF, 3, None, note=60)], "n": 4, "d": 4, "key": None, "dch": 3}
 
@@ -258,8 +258,8 @@ def generate(ctx):
     ctx.check("bar", D37_EXAMPLE)                                          # D37: the copy of a bar built with default_channel=3
     ctx.check("bar-copy-mut", D37B_WITNESS)                                # audit round 4, D1: … and moved to channel 0 before it is copied
     ctx.check("bar-copy-mut", dict(D37B_WITNESS, muts=[]))
-    ctx.check("bar-copy-mut", D42_EXAMPLE)                                 # D44 (known finding)
-    ctx.check("bar-copy-mut", D43_EXAMPLE)                                 # D45 (known finding)
+    ctx.check("bar-copy-mut", D44_EXAMPLE)                                 # D44 (known finding)
+    ctx.check("bar-copy-mut", D45_EXAMPLE)                                 # D45 (known finding)
     for i in range(ctx.n(300, 5000)):
         n, d = rng.choice(SIGS)
         cap = 96 * n // d
